@@ -140,6 +140,12 @@ func mutateLine(r *Rng, line string) string {
 	return strings.Join(tok, " ")
 }
 
+var manyQueens = []string{
+	"qqqqqqqk/6qq/8/8/8/8/QQ6/KQQQQQQQ w - - 0 1",
+	"qqqqqqqk/6qq/8/8/8/8/QQ6/KQQQQQQQ b - - 0 1",
+	"kqqqqqqq/qq6/8/8/8/8/6QQ/QQQQQQQK w - - 0 1",
+}
+
 const deepGoLine = "go depth 8 nodes 1500000"
 
 // optionBurst lines never change the position.
@@ -249,6 +255,10 @@ func c16uci(c *Ctx) {
 				if len(hb.Legal()) > 66 {
 					break
 				}
+			}
+			if r.Chance(0.4) {
+				// open boards with nine queens a side: nearly every one of 80+ moves is quiet
+				hb = rc.MustFEN(manyQueens[r.Intn(len(manyQueens))])
 			}
 			script = append(script, "setoption name Use_Lmp value "+[]string{"false", "false", "false", "true"}[r.Intn(4)], "setoption name Use_Lmr value "+[]string{"true", "true", "true", "false"}[r.Intn(4)], "position fen "+hb.FEN(), deepGoLine)
 			rep.Inc("uci_deep_searches_on_crowded_boards")
